@@ -115,9 +115,24 @@ def job_class(job):
             f["undefined"], f["badarg"], f["tags_show"], f["tags_hide"], f["fault"], f["cont_fail_not_last"])
 
 
+def must_keep(job):
+    """guaranteed class of the reports pass: the tiny programs of family `cleanup` with a raising cleanup registered on the
+    feature / rule / testrun layer -- the container's status changes when its context layer is popped, i.e. around eof"""
+    return job["prog"].get("family") == "cleanup" and any(
+        st["cl_id"] and st["cl_raises"] and st["cl_layer"] in ("feature", "rule", "testrun")
+        for e in job["flat"]["elems"] for st in e["steps"])
+
+
 def thin(jobs, quota, rnd):
     if len(jobs) <= quota:
         return list(jobs)
+    kept = [j for j in jobs if must_keep(j)]
+    jobs = [j for j in jobs if not must_keep(j)]
+    quota = max(0, quota - len(kept))
+    return kept + _thin(jobs, quota, rnd)
+
+
+def _thin(jobs, quota, rnd):
     classes = {}
     for j in jobs:
         classes.setdefault(job_class(j), []).append(j)
@@ -145,6 +160,12 @@ def plan_jobs(chk, quota, rnd):
         offs.append(total)
         total += len(cfgs) * len(faults)
     picks = range(total) if total <= quota * 8 else sorted(rnd.sample(range(total), quota * 8))
+    if total > quota * 8:       # the guaranteed class survives the pre-sample
+        extra = set()
+        for tid, (p, cfgs, faults) in enumerate(pl):
+            if p.get("family") == "cleanup":
+                extra.update(range(offs[tid], offs[tid] + len(cfgs) * len(faults)))
+        picks = sorted(set(picks) | extra)
     flats = {}
     jobs = []
     for n in picks:
